@@ -289,7 +289,10 @@ where
             ready!(Pin::new(this.io.as_mut().unwrap()).poll_read(cx, buf.unfilled()))?;
             *this.filled = buf.filled().len();
 
-            if buf.filled().len() == len || buf.filled()[len..] != HTTP2_PREFIX[len..] {
+            // Compare only the bytes read so far: the preface may arrive in several reads.
+            if buf.filled().len() == len
+                || buf.filled()[len..] != HTTP2_PREFIX[len..buf.filled().len()]
+            {
                 *this.version = HttpProtocol::Http1;
                 break;
             }
